@@ -8,7 +8,10 @@ correspondence (model vs implementation, canonical observables):
     property and nesting level,
   * parse-time loading of an import tree over a generated virtual file system (rule tree + fetcher call log),
     cssutils.resolveImports (resulting rule tree / exception class + fetcher call log), also on sheets whose @import
-    rules were edited through the DOM after parsing (media re-targeted, MediaList edited in place, href assigned).
+    rules were edited through the DOM after parsing (media re-targeted, MediaList edited in place, href assigned),
+  * the SPECIFICATION of flattening with kept imports (`flatSpec`: groups in cascade order, kept @imports hoisted;
+    proved equal to the transcription on every tree without @namespace rules) evaluated by the driver
+    (`flatspec`, `flatspectree`) against the same implementation results.
 oracle (implementation only, independent of the model):
   * getUrls = independent enumeration of the generated abstract sheet; replaceUrls = map, log = getUrls, identity no-op,
     nothing else touched, also through serialise+parse,
@@ -89,7 +92,8 @@ class C19(Check):
     trusted_base = (
         'hand-written model lean/CssVerif/Model/Urls.lean of cssutils/__init__.py:183-415 (getUrls, replaceUrls, '
         'Replacer, resolveImports), CSSImportRule._setHref, CSSStyleSheet.add and CSSMediaRule.insertRule, tied to '
-        'the code by the differential correspondence of this run',
+        'the code by the differential correspondence of this run; the specification flatSpec (same file, Part 4) is '
+        'tied to that model by theorem (resolveImports_is_flatSpec) and to the implementation by the flatspec stream',
         'CPython 3.12 posixpath.split/join/normpath and urllib.parse.urlsplit/urlunsplit/urlparse/urljoin/quote are '
         'transcribed into the same model and compared with CPython on generated strings each run; urljoin is the '
         'resolving oracle of the property',
@@ -343,13 +347,23 @@ class C19(Check):
                 lines.append(line)
                 exp.append(want)
                 metas.append(case)
+        # resolveImports(sheet, target) with a target that holds rules already
+        for i in range(ctx.n(150, 3000)):
+            case = V.gen_case(rng, exotic=0.0, fn_url_p=0.0, features={'cycle': 0.0,
+                                                                      'kept': 0.5 if rng.random() < 0.5 else 0.0})
+            for line, want in self.into_case(ctx, cssutils, case, rng):
+                lines.append(line)
+                exp.append(want)
+                metas.append(case)
         out = ctx.driver(lines) if ctx.model_ok else [None] * len(lines)
         for line, want, got, case in zip(lines, exp, out, metas):
             if got is None or want is None:
                 continue
             if got.startswith('UNSUPPORTED') or got.startswith('PARSE-UNSUPPORTED'):
-                ctx.count('flatten:unsupported-by-model')
+                ctx.count('flatten:spec-has-no-value' if line.startswith('flatspec') else 'flatten:unsupported-by-model')
                 continue
+            if line.startswith('flatspec'):
+                ctx.count('flatten:spec-has-a-value')
             if norm_ws(got) != norm_ws(want):
                 ctx.disagree(line.split(' ', 1)[0], case_json(case), explain(want), explain(got))
 
@@ -426,6 +440,9 @@ class C19(Check):
                             {'exception': repr(e)[:300]})
                 return res
             res.append(('resolve' + head[5:], '%s | %s | %s' % (got, show_log(log[n_parse:]), show_log(log[:n_parse]))))
+            # the specification with kept imports (`flatSpec`: groups in cascade order, kept @imports hoisted) against
+            # the implementation directly; it has no value (UNSUPPORTED) for trees with @namespace rules
+            res.append(('flatspec' + head[5:], res[-1][1]))
             # oracle: flattening preserves meaning
             if exc is not None:
                 ctx.count('flatten:raises:' + type(exc).__name__)
@@ -459,6 +476,67 @@ class C19(Check):
             # the script wrapper: parse (default fetcher), flatten, serialise with its own serializer
             if not cyc and main_text and (combine or rng.random() < 0.6):     # csscombine(cssText='') calls sys.exit
                 self.combine_case(ctx, cssutils, case, main_text, texts, rng, w, exc, stream)
+        finally:
+            cssutils.util._defaultFetcher = old
+        return res
+
+    # -- resolveImports(sheet, target): a target that holds rules already ------------------------------
+    def into_case(self, ctx, cssutils, case, rng):
+        """`cssutils.resolveImports(sheet, target)` with a target parsed by the same parser (so it has the same
+        fetcher) that holds 0-3 rules, sometimes a leading comment or an unavailable @import, at the sheet's own
+        or at another location: result tree + fetcher calls = model `resolveRules` on that target = the groups of the
+        specification added one by one (`run target`, theorem resolveRules_is_groups_added)."""
+        import cssutils.util
+        import xml.dom
+        main_text, texts = V.render_case(case, rng)
+        log, fetch, old = self.run_impl(cssutils, case, texts, main_text)
+        res = []
+        try:
+            tg = []
+            if rng.random() < 0.4:
+                tg.append(('K', '/*t*/'))
+            if rng.random() < 0.35:
+                tg.append(S.raw_import('t-missing.css', rng.choice(['all', 'print'])))
+            tg += S.gen_sheet_body(rng, n=rng.choice([0, 1, 1, 2, 3]), fn_url_p=0.0)
+            th = case['href'] if rng.random() < 0.6 else rng.choice(['http://h/other/t.css', 'http://h/base/sub/t.css'])
+            tg_text = S.r_rules(tg, rng)
+            try:
+                with time_limit(30):
+                    parser = cssutils.CSSParser(fetcher=fetch)
+                    sheet = parser.parseString(main_text, href=case['href'])
+                    target = parser.parseString(tg_text, href=th)
+            except (RecursionError, xml.dom.DOMException, OSError, TypeError, AttributeError, KeyError, IndexError):
+                return []
+            if (S.shallow(S.p_rules(sheet.cssRules, deep=False)) != S.shallow(case['main'])
+                    or S.shallow(S.p_rules(target.cssRules, deep=False)) != S.shallow(tg)):
+                ctx.count('into:render-parse-mismatch')
+                return []
+            tg_loaded = S.p_rules(target.cssRules, deep=True)
+            n0 = len(log)
+            ctx.case(key=('into', main_text, tg_text, th, tuple(sorted(texts.items()))), nontrivial=bool(tg),
+                     kind='into:%s:%s' % ('same-href' if th == case['href'] else 'other-href',
+                                          'import' if any(r[0] == 'I' for r in tg) else
+                                          'comment-first' if tg and tg[0][0] == 'K' else 'plain' if tg else 'empty'),
+                     sample={'href': case['href'], 'css': main_text, 'vfs': texts, 'target': tg_text, 'target_href': th})
+            w = {'href': case['href'], 'css': main_text, 'vfs': texts, 'target': tg_text, 'target_href': th}
+            try:
+                with time_limit(30):
+                    result = cssutils.resolveImports(sheet, target)
+                if result is not target:
+                    ctx.violate('resolveImports(sheet, target) returns the target it was given', w, {})
+                got = 'OK ' + S.wire_sheet(mid(S.p_rules(result.cssRules, deep=True)))
+            except (xml.dom.HierarchyRequestErr, ValueError, UnicodeError) as e:
+                got = show_exc(e)
+            except (RecursionError, xml.dom.DOMException, OSError, TypeError, AttributeError, KeyError,
+                    IndexError) as e:
+                ctx.violate('resolveImports returns the flattened sheet (it does not raise)', w,
+                            {'exception': repr(e)[:300]})
+                return res
+            tail = '%s %s %s %s %s' % (enc(case['href']), enc(th), S.wire_vfs(case['vfs']), S.wire_sheet(case['main']),
+                                       S.wire_sheet(mid(tg_loaded)))
+            want = '%s | %s' % (got, show_log(log[n0:]))
+            res.append(('resolveinto ' + tail, want))
+            res.append(('flatspecinto ' + tail, want))
         finally:
             cssutils.util._defaultFetcher = old
         return res
@@ -563,6 +641,7 @@ class C19(Check):
                 return res
             res.append(('resolvetree %s %s %s' % (enc(case['href']), S.wire_vfs(case['vfs']), S.wire_sheet(tree)),
                         '%s | %s' % (got, show_log(log[n0:]))))
+            res.append(('flatspectree' + res[-1][0][len('resolvetree'):], res[-1][1]))
             if any(k != 'u' for k, u in log[n0:]):
                 ctx.violate('every fetch goes through the fetcher the sheet was parsed with', w,
                             {'fetched_by_the_default_fetcher': [u for k, u in log[n0:] if k != 'u']})
